@@ -285,26 +285,68 @@ func r02_2(c *Ctx) {
 			continue
 		}
 		wcs := writeCallsOf(P, fn, fam)
-		// order by dominance
 		name := fnLabel(fn) + ":line-shape"
-		if len(wcs) != 3 {
-			c.bad(name, P.pos(fn.Pos()), "a line writer must perform exactly three writes (prefix, payload, newline); found "+itoa(len(wcs))+": two values on one line, or a missing/extra line break, merge or split fields and events")
+		// Path-wise: on every path the writes performed are a prefix of (prefix, payload, LF); a path that
+		// stops early has either written nothing yet (a guard) or passes the failure edge of its last write;
+		// some path performs all three. (Several call sites per role are fine: one per branch.)
+		byCall := map[ssa.Instruction]*writeCall{}
+		for i := range wcs {
+			byCall[wcs[i].call] = &wcs[i]
+		}
+		paths, okP := abstractPaths(fn, 4096, func(ssa.Value) (bool, bool) { return false, false })
+		if !okP || len(paths) == 0 {
+			c.undecided(name, P.pos(fn.Pos()), "too many paths through the line writer")
 			continue
 		}
-		// sort by dominance
-		for i := 0; i < 3; i++ {
-			for j := i + 1; j < 3; j++ {
-				if instrDominates(wcs[j].call, wcs[i].call) {
-					wcs[i], wcs[j] = wcs[j], wcs[i]
+		full := false
+		why := ""
+		for _, p := range paths {
+			var seq []*writeCall
+			for _, in := range p.Instrs {
+				if wc := byCall[in]; wc != nil {
+					seq = append(seq, wc)
+				}
+			}
+			if len(seq) > 3 {
+				why = "a path performs " + itoa(len(seq)) + " writes"
+				break
+			}
+			for i, wc := range seq {
+				arg := p.St.resolve(wc.call.Common().Args[0])
+				switch i {
+				case 0:
+					if !(wc.kind == "Write" && !isNewline(arg)) {
+						why = "the first write of a path is not the field prefix"
+					}
+				case 1:
+					if !(wc.kind == "writeString" || (wc.kind == "Write" && !isNewline(arg))) {
+						why = "the second write of a path is not the payload"
+					}
+				case 2:
+					if !(wc.kind == "Write" && isNewline(arg)) {
+						why = "the third write of a path is not the single LF"
+					}
+				}
+			}
+			if why != "" {
+				break
+			}
+			if len(seq) == 3 {
+				full = true
+			} else if len(seq) > 0 {
+				last := seq[len(seq)-1]
+				failed := last.err != nil && pathEstablishes(p.St, factNil(func(v ssa.Value) bool { return v == ssa.Value(last.err) }, false))
+				if !failed {
+					why = "a path stops after " + itoa(len(seq)) + " write(s) although the last one did not fail"
+					break
 				}
 			}
 		}
-		chain := instrDominates(wcs[0].call, wcs[1].call) && instrDominates(wcs[1].call, wcs[2].call)
-		prefixOK := wcs[0].kind == "Write" && !isNewline(wcs[0].call.Common().Args[0])
-		payloadOK := wcs[1].kind == "writeString" || (wcs[1].kind == "Write" && !isNewline(wcs[1].call.Common().Args[0]))
-		nlOK := wcs[2].kind == "Write" && isNewline(wcs[2].call.Common().Args[0])
-		c.check(chain && prefixOK && payloadOK && nlOK, name, P.pos(fn.Pos()), "prefix, payload, single LF, in this order",
-			"the line writer does not write prefix, payload and a single LF in this order")
+		if why == "" && !full {
+			why = "no path writes prefix, payload and LF"
+		}
+		c.check(why == "", name, P.pos(fn.Pos()), "on every path: prefix, payload, single LF, in this order (shorter only after a failed write); "+itoa(len(paths))+" paths",
+			"the line writer does not write exactly prefix, payload and a single LF in this order ("+why+"): two values on one line, or a missing/extra line break, merge or split fields and events")
 	}
 	// Message.WriteTo
 	fn := P.Fn("(*Message).WriteTo")
@@ -495,22 +537,45 @@ func r02_4(c *Ctx) {
 		if _, ok := isFieldSel(st.Addr, "Message", "Retry"); !ok {
 			return
 		}
-		b, ok := st.Val.(*ssa.BinOp)
-		if !ok || b.Op != token.MUL {
-			return
-		}
-		k, isK := constInt(b.Y)
-		if !isK || k != 1000000 {
-			return
-		}
-		// the other operand is the parsed integer
-		if e, ok := stripConvAll(b.X).(*ssa.Extract); ok && e.Index == 0 {
-			if call, ok := e.Tuple.(*ssa.Call); ok {
-				switch calleeName(call) {
-				case "strconv.ParseInt", "strconv.ParseUint", "strconv.Atoi":
-					good = inFieldCase(um, "retry", st.Block())
+		// every origin of the stored value is parsed*time.Millisecond (or the 0 an extracted
+		// parse step returns beside its error)
+		okAll, some := true, false
+		for _, src := range sources(st.Val) {
+			if isZeroConst(src) {
+				continue
+			}
+			b, ok := src.(*ssa.BinOp)
+			if !ok || b.Op != token.MUL {
+				okAll = false
+				continue
+			}
+			x, y := b.X, b.Y
+			if k, isK := constInt(x); isK && k == 1000000 {
+				x, y = y, x
+			}
+			k, isK := constInt(y)
+			if !isK || k != 1000000 {
+				okAll = false
+				continue
+			}
+			// the other operand is the parsed integer
+			parsed := false
+			if e, ok := stripConvAll(x).(*ssa.Extract); ok && e.Index == 0 {
+				if call, ok := e.Tuple.(*ssa.Call); ok {
+					switch calleeName(call) {
+					case "strconv.ParseInt", "strconv.ParseUint", "strconv.Atoi":
+						parsed = true
+					}
 				}
 			}
+			if parsed {
+				some = true
+			} else {
+				okAll = false
+			}
+		}
+		if okAll && some && inFieldCase(um, "retry", st.Block()) {
+			good = true
 		}
 	})
 	c.check(good, fnLabel(um)+":retry-units", P.pos(um.Pos()), "UnmarshalText stores parsed*time.Millisecond", "UnmarshalText does not store the parsed retry value as milliseconds: the round trip changes Retry")
